@@ -97,6 +97,9 @@ func (e *Explorer) runOnce(prefix []int, keepTrace bool) *X {
 }
 
 func cost(p point, alt int) int {
+	if p.costs != nil {
+		return p.costs[alt]
+	}
 	if alt == 0 || p.free {
 		return 0
 	}
